@@ -79,3 +79,45 @@ def spellings(rng, lx, k, nonascii=True):
     for _ in range(k):
         out.append(gen_prog.render(lx, gen_prog.Spelling(rng, respell=True, nonascii=nonascii)))
     return out
+
+
+# ---- the subset of expressions the Coq parser / renderer models cover, as S-expressions ----
+def model_expr(rng, depth=4):
+    """a random expression over names, plain integer constants, all binary operators and both unary operators"""
+    if depth <= 0 or rng.random() < 0.3:
+        return Name("v%d" % rng.randrange(50)) if rng.random() < 0.6 else IntConst(rng.choice([0, 1, 7, 42, 1000, 2 ** 70]))
+    if rng.random() < 0.15:
+        return Unary(rng.choice(["-", "NOT"]), model_expr(rng, depth - 1))
+    return Bin(rng.choice(gen_ast.BINOPS), model_expr(rng, depth - 1), model_expr(rng, depth - 1))
+
+
+def sexp_of_expr(e):
+    if isinstance(e, Name):
+        return "n:" + e.name.lower()
+    if isinstance(e, IntConst):
+        return "i:%d" % e.v
+    if isinstance(e, Unary):
+        return "(%s %s)" % ("neg" if e.op == "-" else "not", sexp_of_expr(e.e))
+    if isinstance(e, Bin):
+        return "(%s %s %s)" % (gen_ast.OPNAME[e.op][1], sexp_of_expr(e.l), sexp_of_expr(e.r))
+    raise ValueError(e)
+
+
+def sexp_of_tree(t):
+    """S-expression of an expression in the compact Debug-tree form (model subset only; None otherwise)"""
+    if isinstance(t, tuple):
+        name, body = t
+        if name == "LateBound":
+            return "n:" + body["name"]
+        if name == "Const" and isinstance(body, list) and body and isinstance(body[0], tuple) and body[0][0] == "IntegerLiteral":
+            v = body[0][1]["value"]
+            return v if body[0][1]["data_type"] is None and not v.startswith("i:-") else None
+        if name in ("Compare", "BinaryOp") and isinstance(body, list) and body:
+            f = body[0][1]
+            l, r = sexp_of_tree(f["left"]), sexp_of_tree(f["right"])
+            return None if l is None or r is None else "(%s %s %s)" % (f["op"], l, r)
+        if name == "UnaryOp" and isinstance(body, list) and body:
+            f = body[0][1]
+            x = sexp_of_tree(f["term"])
+            return None if x is None else "(%s %s)" % (f["op"], x)
+    return None
